@@ -10,3 +10,4 @@ import Theorems.C06
 import Theorems.Lemmas.Codec
 import Theorems.C03
 import Theorems.C20
+import Theorems.C04
